@@ -349,6 +349,31 @@ fn history_case(ctx: &mut Ctx) {
             J::obj(vec![("call", J::s(format!("{:?}", calls[i]))), ("call_index", J::U(i as u64)), ("list_len", J::U(calls.len() as u64))]),
         );
     };
+    // (b') ambient thread state: an encode performed from a destructor while the thread unwinds
+    // from an unrelated panic must produce the octets of an ordinary encode
+    for (i, c) in calls.iter().enumerate() {
+        let (normal, unwinding) = match c {
+            Call::EncodeMsg(m) => match glue::msg_to_crate(m) {
+                Some(cm) => (exec::encode_msg(&cm, Wk::Vec), exec::encode_msg(&cm, Wk::WhileUnwinding)),
+                None => continue,
+            },
+            Call::EncodeAvp(a) => match glue::avp_to_crate(a) {
+                Some(ca) => (exec::encode_avp(&ca, Wk::Vec), exec::encode_avp(&ca, Wk::WhileUnwinding)),
+                None => continue,
+            },
+            _ => continue,
+        };
+        ctx.rep.bucket("encode.while_unwinding.compared");
+        let same = match (&normal, &unwinding) {
+            (exec::EncOut::Ok(a), exec::EncOut::Ok(b)) => a.bytes == b.bytes,
+            (exec::EncOut::Panic(_), exec::EncOut::Panic(_)) => true,
+            _ => false,
+        };
+        if !same {
+            fail(ctx, "while-the-thread-is-unwinding", i);
+            return;
+        }
+    }
     // (c) reversed
     for i in (0..n).rev() {
         if exec_call(&calls[i]) != first[i] {
